@@ -286,6 +286,12 @@ impl Analyzer {
         // Must precede `drop_tokens`: it matches reference tokens against
         // their token scope.
         symbol_table::drop(path, prj);
+        // Candidates the file's pass1 queued for the next post-pass1 would
+        // otherwise outlive its tokens and symbols (the language server drops
+        // and re-analyses a file while background analysis is pending).
+        reference_table::drop(path, prj);
+        type_dag::drop_candidates(path, prj);
+        generic_inference_table::drop(path);
         scope::drop_tokens(path, prj);
         text_table::drop(path);
         attribute_table::drop(path);
